@@ -16,6 +16,15 @@
   replaying `vh conc` hook traces) evaluates exactly this predicate on every logged `transfer_lock`
   and reports violations as `client-precondition-violated` (counted separately, expected 0).
 
+  KNOWN FINDING (repaired).  Exploration found a real deadlock in salsa in exactly the gap left by the
+  unproved full W3: a thread blocks on a re-claimed transferred key (`claimed_twice`), `release_self`
+  handed the key back to its transfer target without touching that waiter, the stale edge hid the true
+  dependency from `depends_on`, and two threads ended up waiting for each other through transferred
+  keys (corpus/C18/kf-deadlock-stale-edge-after-reclaim.replay).  salsa commit 451fce7 wakes the
+  waiters at hand-back; the model follows the repaired code (`releaseSelf`), `c18_handback_wakes_waiters`
+  proves the repaired step leaves no dependents behind, and the trace driver's decidable W3
+  (`checkW3`) flags the old behaviour on the recorded trace (corpus/DG/kf-stale-edge-prefix.ops).
+
   NOT YET PROVED / NOT CLAIMED
     * liveness: livelock-freedom and termination under every schedule (bounded retries of
       `provisional_retry`-style loops) are explicitly NOT claimed; `c18_progress_partial` is only the
@@ -75,6 +84,27 @@ theorem c18_owner_resolves (ops : List Op) (s : State) (h : runC init ops = some
   have hk : KInv s := run_kinv ops init s GInv_init KInv_init hr
   exact threadIdOfTransferredQuery_resolves (C19.w4_forest ops s h) hk k skip
 
+/-- With transfers: a key with dependents always has a sync entry with `anyone_waiting` set; a key
+    without sync entry, and a key left `Transferred` after its owner released it, has no dependents
+    (no waiter can be forgotten on a key nobody owns any more). -/
+theorem c18_no_dependents_without_owner (ops : List Op) (s : State) (h : runC init ops = some s) :
+    (∀ k, s.qdeps k ≠ [] → ∃ st, s.sync k = some st ∧ st.anyoneWaiting = true) ∧
+    (∀ k, s.sync k = none → s.qdeps k = []) ∧
+    (∀ k st, s.sync k = some st → st.owner = .transferred → s.transferred k = none → s.qdeps k = []) :=
+  C19.w6_no_dependents_without_owner ops s h
+
+/-- The repaired `release_self` (salsa 451fce7): handing a re-claimed transferred key back leaves it
+    `Transferred` with NO dependents — all former waiters have `Completed` and no edge, in particular
+    none keeps an edge to the releasing thread. -/
+theorem c18_handback_wakes_waiters (ops : List Op) (s : State) (h : runC init ops = some s)
+    (t k : Nat) (st : SyncState) (hk : s.sync k = some st) (hct : st.claimedTwice = true) (s' : State)
+    (hs : step s (.releaseSelf t k) = some s') :
+    s'.qdeps k = [] ∧
+    (∃ st', s'.sync k = some st' ∧ st'.owner = .transferred ∧ st'.anyoneWaiting = false) ∧
+    (∀ u, u ∈ s.qdeps k → s'.results u = some .completed ∧ s'.edges u = none) ∧
+    (∀ k' u, u ∈ s'.qdeps k' → s'.edges u = some t → k' ≠ k) :=
+  C19.w3_handback_wakes_waiters ops s h t k st hk hct s' hs
+
 /-- Progress, graph level only: in every reachable state (all ops, including transfers) every blocked
     thread transitively waits for a thread that is NOT blocked — so never are all threads blocked.
     `_partial`: nothing is said about that thread having an enabled step (see header). -/
@@ -101,5 +131,10 @@ example : ((run init (C19.transferOps.take 4)).bind fun s =>
 example : ((grunC init [.transferLock 2 0 4 (.thread 0), .transferLock 1 0 2 (.thread 0),
     .transferLock 3 0 1 (.thread 0)]).map fun s => (checkW4 s, threadIdOfTransferredQuery s 3 none,
     s.transferred 4)) = some (true, some (some 0), none) := by decide
+
+-- hand-back: t2 waits on the re-claimed k1 (edge t2 → t1); `release_self` by t1 wakes it, W3 holds
+example : ((runC init (C19.transferOps.take 7 ++ [.claim 2 1 true true, .releaseSelf 1 1])).map fun s =>
+    (s.edges 2, s.results 2, s.qdeps 1, (s.sync 1).map (·.owner), checkW3 s [])) =
+    some (none, some .completed, [], some .transferred, true) := by decide
 
 end SalsaVerif.Props.C18
